@@ -26,7 +26,7 @@ import (
 //   trace  := one item per op: t<At> | f | D<count>/<sum mod 2^64>/<Σ (i+1)·v_i mod 2^64>[=v.v.v if count ≤ 40]
 //   chunk  := u<hex> (uncompressed data chunk) | c<hex> (compressed data chunk) | p<hex> (skippable chunk, no data)
 //   pc.enc <list>                               -> hex of the diff+uvarint payload | unsorted
-//   pc.rt  dvs|dss <list> <chunk lengths> <script>
+//   pc.rt  dvs|dss|dsp <list> <chunk lengths> <script>      (dsp: diffVarintEncodeNoHeader + snappyStreamedEncode)
 //                                               -> <payload length>/<fnv1a-32 of payload> <trace> e<0|1> | unsorted
 //        real encode with the codec, real decode, run the script.  The chunk lengths are those of
 //        the real snappy stream (third-party input for the model; verified again by Exec).
@@ -149,8 +149,15 @@ func runScript(p index.Postings, cmds []c12Cmd, stopAtFalse bool) []string {
 
 func encodeWith(codec string, l []storage.SeriesRef) ([]byte, error) {
 	p := index.NewListPostings(l)
-	if codec == "dvs" {
+	switch codec {
+	case "dvs":
 		return store.VerifDiffVarintSnappyEncode(p, len(l))
+	case "dsp": // the path of fetched postings: diff+varint bytes first, then the streamed snappy framing
+		payload, err := store.VerifDiffVarintEncodeNoHeader(p, len(l))
+		if err != nil {
+			return nil, err
+		}
+		return store.VerifSnappyStreamedEncode(len(l), payload)
 	}
 	return store.VerifDiffVarintSnappyStreamedEncode(p, len(l))
 }
@@ -159,7 +166,11 @@ func encodeWith(codec string, l []storage.SeriesRef) ([]byte, error) {
 // (snappy block for "dvs", snappy framing for "dss"): third-party decoding, done with the
 // library itself.
 func payloadChunks(codec string, enc []byte) ([][]byte, error) {
-	if len(enc) < 3 || string(enc[:3]) != codec {
+	hdr := codec
+	if codec == "dsp" {
+		hdr = "dss"
+	}
+	if len(enc) < 3 || string(enc[:3]) != hdr {
 		return nil, fmt.Errorf("missing header")
 	}
 	in := enc[3:]
@@ -311,7 +322,7 @@ func execC12(c *hlib.Ctx, tok []string) string {
 		}
 		return hlib.Hex(b)
 	case "pc.rt":
-		if len(tok) != 5 || (tok[1] != "dvs" && tok[1] != "dss") {
+		if len(tok) != 5 || (tok[1] != "dvs" && tok[1] != "dss" && tok[1] != "dsp") {
 			return "bad-op"
 		}
 		codec := tok[1]
@@ -597,7 +608,7 @@ func genC12(c *hlib.Ctx) {
 			c.Do("pc.enc "+refsTok(l), len(l) > 0)
 		}
 		script := genScript(c, l)
-		codec := r.Pick([]string{"dvs", "dss"})
+		codec := r.Pick([]string{"dvs", "dss", "dsp"})
 		doRT(c, codec, l, script)
 		// the same payload with arbitrary chunk boundaries, through the real streamed decoder
 		if payload, err := store.VerifDiffVarintEncodeNoHeader(index.NewListPostings(l), len(l)); err == nil && len(payload) < 20000 {
@@ -645,6 +656,8 @@ func genC12(c *hlib.Ctx) {
 		doRT(c, "dss", l, "n,s"+strconv.FormatUint(uint64(l[len(l)/2]), 10)+",n,d")
 		if i%2 == 0 {
 			doRT(c, "dvs", l, "s"+strconv.FormatUint(uint64(l[len(l)-1]), 10)+",n")
+		} else {
+			doRT(c, "dsp", l, "s"+strconv.FormatUint(uint64(l[len(l)/3]), 10)+",n,d")
 		}
 	}
 }
